@@ -1,7 +1,7 @@
 (* Properties/C10.v — lookups are exact for every id (C10).  Theorems about the two-table arena
    (Model/Onto.v, transcription of src/ontology/termarena.rs) for EVERY insertion sequence and
    EVERY id; MAX_HPO_ID is regenerated from the source on every run. *)
-From HpoV Require Import Gen.Consts Model.Base Model.Onto Model.Script Model.ManyTerms Proofs.C10P Proofs.ManyTermsP.
+From HpoV Require Import Gen.Consts Model.Base Model.Onto Model.Script Model.ManyTerms Proofs.C10P Proofs.ManyTermsP Run.C10 Proofs.C10N.
 
 Theorem C10_lookup_after_any_insertions : forall ts a id, insert_all ts arena_default = Ok a ->
   ar_get id a = if MAX_HPO_ID <=? id then None else find_by t_id id ts.
@@ -40,6 +40,40 @@ Theorem C10_many_terms_script : forall icf ver first stride count,
   run_many icf ver first stride count = run_script icf (many_script ver first stride count).
 Proof. exact run_many_is_script. Qed.
 
+(* ---- records: lookup by id, by gene symbol, disease name search (Run/C10.v models of ontology.rs:540-600) ---- *)
+
+(* the byte-level infix test is "the name contains the query" *)
+Theorem C10_contains_is_infix : forall q s, is_infix q s = true <-> exists a b, s = a ++ q ++ b.
+Proof. exact is_infix_spec. Qed.
+
+(* omim_diseases_by_name returns exactly the diseases whose name contains the query *)
+Theorem C10_disease_name_search_exact : forall o q r,
+  In r (omim_by_name o q) <-> In r (o_omim o) /\ exists a b, a_name r = a ++ q ++ b.
+Proof. exact omim_by_name_spec. Qed.
+
+Theorem C10_first_disease_by_name : forall o q,
+  match omim_first_by_name o q with
+  | Some r => In r (o_omim o) /\ exists a b, a_name r = a ++ q ++ b
+  | None => forall r, In r (o_omim o) -> ~ exists a b, a_name r = a ++ q ++ b
+  end.
+Proof. exact omim_first_by_name_spec. Qed.
+
+(* gene_by_name returns a gene with exactly that symbol; None only if no gene has it *)
+Theorem C10_gene_by_symbol : forall o q,
+  match gene_by_name o q with
+  | Some r => In r (o_genes o) /\ a_name r = q
+  | None => forall r, In r (o_genes o) -> a_name r <> q
+  end.
+Proof. exact gene_by_name_spec. Qed.
+
+(* gene / disease lookup by id returns the record with that id; None only if there is none *)
+Theorem C10_record_by_id : forall id recs,
+  match an_find id recs with
+  | Some r => In r recs /\ a_id r = id
+  | None => forall r, In r recs -> a_id r <> id
+  end.
+Proof. exact record_by_id_spec. Qed.
+
 Print Assumptions C10_lookup_after_any_insertions.
 Print Assumptions C10_lookup_returns_that_id.
 Print Assumptions C10_lookup_outside_id_space.
@@ -49,3 +83,8 @@ Print Assumptions C10_id_space.
 Print Assumptions C10_many_terms_block_is_calls.
 Print Assumptions C10_connect_without_links.
 Print Assumptions C10_many_terms_script.
+Print Assumptions C10_contains_is_infix.
+Print Assumptions C10_disease_name_search_exact.
+Print Assumptions C10_first_disease_by_name.
+Print Assumptions C10_gene_by_symbol.
+Print Assumptions C10_record_by_id.
